@@ -191,3 +191,766 @@ def generate(prop="C05"):
     out.append(_coq_tables("torch_tables", s, tot if s is not None else None))
     out.append("Definition call_guard : bool := %s." % astlib.coq_bool(g))
     return "\n".join(out) + "\n"
+
+
+# ---------------------------------------------------------------- worker side (runs under $VERIF_REPO)
+NAN_BITS = 0x7FF8000000000000
+
+
+def fbits(x):
+    x = float(x)
+    if x != x:
+        return NAN_BITS
+    return struct.unpack(">Q", struct.pack(">d", x))[0]
+
+
+def canon5(v):
+    """canonical form of a result: structure, elements, integer/real kind (Python vs NumPy scalar is not a kind)"""
+    import numpy as np
+    from klongpy.core import KGSym, KGChar, KGFn, KGLambda, KLONG_UNDEFINED
+    from klongpy.types import KGUndefined
+    if v is KLONG_UNDEFINED:
+        return ["u", 1]
+    if isinstance(v, KGUndefined):
+        return ["u", 0]
+    if v is None:
+        return ["none"]
+    if isinstance(v, (bool, np.bool_)):
+        return ["i", int(v)]
+    if isinstance(v, (int, np.integer)):
+        return ["i", int(v)]
+    if isinstance(v, (float, np.floating)):
+        return ["r", fbits(v)]
+    if isinstance(v, KGChar):
+        return ["c", ord(str(v))]
+    if isinstance(v, KGSym):
+        return ["y"] + [ord(c) for c in str(v)]
+    if isinstance(v, str):
+        return ["s"] + [ord(c) for c in v]
+    if isinstance(v, np.ndarray):
+        if v.ndim == 0:
+            return canon5(v.item())
+        return ["l"] + [canon5(x) for x in v]
+    if isinstance(v, (list, tuple)):
+        return ["l"] + [canon5(x) for x in v]
+    if isinstance(v, dict):
+        return ["d", len(v)]
+    if isinstance(v, (KGFn, KGLambda)) or callable(v):
+        return ["f"]
+    mod = type(v).__module__ or ""
+    if mod.startswith("torch"):
+        a = v.detach().cpu().numpy()
+        return canon5(a)
+    return ["other", type(v).__name__]
+
+
+def cps(s):
+    return [ord(c) for c in s]
+
+
+def enc_expr(node):
+    """klongpy syntax tree -> the model's expr (what _ast_to_ir can look at)"""
+    from klongpy.types import KGSym, KGFn, KGCall, KGOp, KGAdverb
+    t = type(node)
+    if t is int:
+        return ["li", node]
+    if t is float:
+        return ["lr", fbits(node), cps(repr(node))]
+    if t is KGSym:
+        return ["sym", cps(str(node))]
+    if isinstance(node, KGFn) and node.is_op():
+        op, ar = node.a.a, node.a.arity
+        args = node.args
+        if ar == 2:
+            if not isinstance(args, list):
+                args = [args] if args is not None else None
+            if args is None or len(args) != 2:
+                return ["other"]
+            return ["dy", cps(op), enc_expr(args[0]), enc_expr(args[1])]
+        if ar == 1:
+            a = args[0] if isinstance(args, list) else args
+            return ["mo", cps(op), enc_expr(a)]
+        return ["other"]
+    if isinstance(node, KGCall) and node.is_adverb_chain():
+        ch = node.a
+        if isinstance(ch, list) and len(ch) == 3 and isinstance(ch[0], KGAdverb) and isinstance(ch[0].a, KGOp) \
+                and isinstance(ch[1], KGAdverb):
+            return ["adv", cps(ch[0].a.a), cps(ch[1].a), enc_expr(ch[2])]
+    return ["other"]
+
+
+def enc_val(v):
+    import numpy as np
+    from klongpy.core import KLONG_UNDEFINED
+    t = type(v)
+    if t is int:
+        return ["i", v]
+    if t is float:
+        return ["r", fbits(v)]
+    if isinstance(v, np.integer):
+        return ["ni", int(v)]
+    if isinstance(v, np.floating):
+        return ["nr", fbits(v)]
+    if isinstance(v, np.ndarray):
+        if v.dtype.kind in "if" and v.ndim == 1:
+            return ["a1"] + [enc_elem(x) for x in v]
+        if v.dtype.kind in "if" and v.ndim == 2 and v.shape[0] > 0 and v.shape[1] > 0:
+            return ["a2"] + [[enc_elem(x) for x in row] for row in v]
+        return ["obj"]
+    if v is KLONG_UNDEFINED:
+        return ["u"]
+    if isinstance(v, str):
+        return ["str"] + cps(v)
+    return ["other"]
+
+
+def enc_elem(x):
+    import numpy as np
+    return ["i", int(x)] if isinstance(x, (int, np.integer)) else ["r", fbits(x)]
+
+
+def enc_ir(ir):
+    k = ir[0]
+    if k == "literal":
+        v = ir[1]
+        return ["literal", ["i", v] if type(v) is int else ["r", fbits(v)]]
+    if k == "var":
+        return ["var", cps(ir[1])]
+    if k in ("binop", "cmp"):
+        return [k, cps(ir[1]), enc_ir(ir[2]), enc_ir(ir[3])]
+    if k == "negate":
+        return ["negate", enc_ir(ir[1])]
+    if k in ("reduce", "scan"):
+        return [k, cps(ir[1]), enc_ir(ir[2])]
+    return ["unknown", k]
+
+
+def _safe(f):
+    try:
+        return ["ok", canon5(f())]
+    except Exception as e:  # noqa
+        return ["exc", type(e).__name__]
+
+
+def worker_corr(cases, want_torch):
+    """(i): real _ast_to_ir / _collect_params / _ir_to_source / compiled fn / stubbed interpreter per case"""
+    import klongpy.interpreter as I
+    import klongpy.compiler as C
+    from klongpy import KlongInterpreter
+    from klongpy.core import KGSym
+    real_compile = I.compile_expr
+    tb = None
+    if want_torch:
+        try:
+            tb = KlongInterpreter(backend="torch", device="cpu")._backend
+        except Exception as e:  # noqa
+            tb = None
+    out = []
+    for case in cases:
+        text, env0, env1, names = case["text"], case["env0"], case["env1"], case["names"]
+        k = KlongInterpreter()
+        I.compile_expr = lambda a, b: None
+        try:
+            for s in env0:
+                k(s)
+        finally:
+            I.compile_expr = real_compile
+        node = k.prog(text)[1]
+        node = node[0] if len(node) == 1 else node
+        rec = {"expr": enc_expr(node), "env0": [[cps(n), enc_val(k._context[KGSym(n)])] for n in names if _has(k, n)]}
+        var_refs = {}
+        ir = C._ast_to_ir(node, k, var_refs)
+        comp = C.compile_expr(node, k)
+        if comp is None:
+            rec["np"] = ["none"]
+            rec["ir_only"] = None if ir is None else enc_ir(ir)
+        else:
+            fn, syms = comp
+            nparams = fn.__code__.co_argcount
+            rec["np"] = ["some", enc_ir(ir), ["params"] + [cps(p) for p in fn.__code__.co_varnames[:nparams]],
+                         ["syms"] + [cps(str(s)) for s in syms],
+                         ["src"] + cps("def _expr(%s): return %s" % (", ".join(k._backend._collect_params(ir)), k._backend._ir_to_source(ir)))]
+            rec["collect"] = [cps(p) for p in k._backend._collect_params(ir)]
+        if tb is not None and ir is not None and var_refs:
+            ts = tb._ir_to_source(ir)
+            rec["torch_src"] = None if ts is None else cps("def _expr(%s): return %s" % (", ".join(tb._collect_params(ir)), ts))
+        elif tb is not None:
+            rec["torch_src"] = None
+        # rebind, then run the compiled function and the stubbed interpreter on the same syntax tree
+        I.compile_expr = lambda a, b: None
+        try:
+            for s in env1:
+                k(s)
+            rec["env1"] = [[cps(n), enc_val(k._context[KGSym(n)])] for n in names if _has(k, n)]
+            rec["interp"] = _safe(lambda: k.eval(node))
+        finally:
+            I.compile_expr = real_compile
+        if comp is not None:
+            fn, syms = comp
+            if hasattr(k, "_compiled_args"):
+                r = _run_fn(lambda: fn(*k._compiled_args(syms)))
+            else:
+                r = _run_fn(lambda: fn(*[k._context[s] for s in syms]))
+            rec["run"] = r
+        # the site as the interpreter does it: fresh tree, compiled under env0 at first evaluation, then rebound
+        k2 = KlongInterpreter()
+        I.compile_expr = lambda a, b: None
+        try:
+            for s in env0:
+                k2(s)
+        finally:
+            I.compile_expr = real_compile
+        wrapped = "1,,(" + text + ")" if False else text
+        node2 = k2.prog(wrapped)[1][0]
+        _safe(lambda: k2.eval(node2))
+        I.compile_expr = lambda a, b: None
+        try:
+            for s in env1:
+                k2(s)
+        finally:
+            I.compile_expr = real_compile
+        rec["site"] = _safe(lambda: k2.eval(node2))
+        out.append(rec)
+    return out
+
+
+def _has(k, n):
+    from klongpy.core import KGSym
+    try:
+        k._context[KGSym(n)]
+        return True
+    except KeyError:
+        return False
+
+
+def _run_fn(f):
+    import numpy as np
+    try:
+        v = f()
+    except Exception as e:  # noqa
+        return ["exc", type(e).__name__]
+    return ["ok", canon5(v), 1 if isinstance(v, (np.integer, np.floating, np.bool_)) else 0]
+
+
+def worker_diff(job):
+    """(ii): run programs (lists of statements) in fresh interpreters; returns canon of the captured statements"""
+    import klongpy.interpreter as I
+    from klongpy import KlongInterpreter
+    if job["stub"]:
+        I.compile_expr = lambda a, b: None
+    kw = {"backend": "torch", "device": "cpu"} if job["backend"] == "torch" else {}
+    out = []
+    for prog in job["programs"]:
+        k = KlongInterpreter(**kw)
+        res = []
+        for stmt, cap in prog:
+            try:
+                v = k(stmt)
+                if cap:
+                    res.append(sx(canon5(v)))
+            except Exception as e:  # noqa
+                if cap:
+                    res.append("EXC")
+        out.append(res)
+    return out
+
+
+def _worker_main():
+    mode = sys.argv[1]
+    job = json.load(sys.stdin)
+    if mode == "corr":
+        res = worker_corr(job["cases"], job["torch"])
+    else:
+        res = worker_diff(job)
+    sys.stdout.write("RESULT " + json.dumps(res) + "\n")
+    sys.stdout.flush()
+    os._exit(0)
+
+
+def call_worker(mode, job, timeout=1500):
+    env = dict(os.environ, PYTHONPATH=REPO + ":" + VERIF, PYTHONHASHSEED="0", PYTHONWARNINGS="ignore")
+    p = subprocess.run([PY, "-W", "ignore", "-m", "harness.c05", mode], input=json.dumps(job).encode(),
+                       stdout=subprocess.PIPE, stderr=subprocess.PIPE, env=env, timeout=timeout, cwd=VERIF)
+    for line in p.stdout.decode().split("\n"):
+        if line.startswith("RESULT "):
+            return json.loads(line[7:])
+    raise RuntimeError("worker %s failed: %s" % (mode, p.stderr.decode()[-2000:]))
+
+
+# ---------------------------------------------------------------- generators
+UNARY = [("neg",)] + [("adv", o, a) for a in "/\\" for o in "+*|&"]
+BINOPS = ["+", "-", "*", "%", "^", "<", ">", "="]
+ATOMS = [("sym", "a"), ("sym", "b"), ("lit", "2"), ("lit", "0.5"), ("lit", "0"), ("lit", "3")]
+
+VALS = {
+    "int": ["3", "0", "7", "1"],
+    "real": ["2.5", "0.5", "4.0"],
+    "v1i": ["[1 2 3]", "[4 0 -2]", "[5]", "[2 2 2]"],
+    "v1r": ["[1.5 2.0 -0.5]", "[0.5 2.5 4.0]"],
+    "empty": ["[]"],
+    "m2": ["[[1 2] [3 4]]", "[[1.5 2.5 0.5]]", "[[1 2 3] [4 5 6]]", "[[0.5 1.5] [2.5 3.5]]"],
+    "nested": ["[1 [2 3]]", "[[1 2] [3]]", "[1.5 [2 [3]]]"],
+    "npscalar": ["+/[1 2]", "+/[1 -1]", "+/[0.5 1.0]"],
+    "text": ['"ab"', "0cx", ":foo", '"a"'],
+    "odd": [":{[1 2]}", "1%0", "{x}", "[\"ab\" 1]"],
+}
+KINDS_NUMERIC = ["int", "real", "v1i", "v1r", "m2"]
+KINDS_ALL = list(VALS)
+
+
+def text_of(t, ren=None):
+    k = t[0]
+    if k == "sym":
+        return (ren or {}).get(t[1], t[1])
+    if k == "lit":
+        return t[1]
+    w = lambda x: text_of(x, ren) if x[0] in ("sym", "lit") else "(" + text_of(x, ren) + ")"
+    if k == "neg":
+        return "-" + w(t[1])
+    if k == "adv":
+        return t[1] + t[2] + w(t[3])
+    return w(t[2]) + t[1] + w(t[3])
+
+
+def subtrees(t):
+    yield t
+    if t[0] == "neg":
+        yield from subtrees(t[1])
+    elif t[0] == "adv":
+        yield from subtrees(t[3])
+    elif t[0] == "dy":
+        yield from subtrees(t[2])
+        yield from subtrees(t[3])
+
+
+def has_var(t):
+    return any(x[0] == "sym" for x in subtrees(t))
+
+
+def all_depth1():
+    out = []
+    for u in UNARY:
+        for a in ATOMS:
+            out.append(("neg", a) if u[0] == "neg" else ("adv", u[1], u[2], a))
+    for o in BINOPS:
+        for a in ATOMS:
+            for b in ATOMS:
+                out.append(("dy", o, a, b))
+    return [t for t in out if has_var(t)]
+
+
+def rand_tree(rng, depth):
+    if depth == 0 or rng.random() < 0.15:
+        return rng.choice(ATOMS[:4]) if rng.random() < 0.85 else rng.choice(ATOMS)
+    if rng.random() < 0.4:
+        u = rng.choice(UNARY)
+        c = rand_tree(rng, depth - 1)
+        return ("neg", c) if u[0] == "neg" else ("adv", u[1], u[2], c)
+    o = rng.choice(BINOPS if rng.random() < 0.8 else ["+", "-", "*", "%"])
+    return ("dy", o, rand_tree(rng, depth - 1), rand_tree(rng, depth - 1))
+
+
+def rand_tree_var(rng, depth):
+    for _ in range(50):
+        t = rand_tree(rng, depth)
+        if has_var(t) and t[0] != "sym":
+            return t
+    return ("dy", "+", ("sym", "a"), ("sym", "b"))
+
+
+def rand_val(rng, numeric_bias=0.8):
+    kinds = KINDS_NUMERIC if rng.random() < numeric_bias else KINDS_ALL
+    return rng.choice(VALS[rng.choice(kinds)])
+
+
+POSITIONS = ["top", "body", "params", "lambda", "operand", "operand2"]
+
+
+def program(tree, pos, history):
+    """-> list of (statement, capture?) — history = [(a_text, b_text), ...]; the same statement text is
+    re-evaluated after each rebinding (same parsed tree, hence the same memoised compilations)"""
+    e = text_of(tree)
+    pre = []
+    if pos == "top":
+        stmt = e
+    elif pos == "body":
+        pre = [("f::{" + e + "}", False)]
+        stmt = "f()"
+    elif pos == "params":
+        pre = [("g::{" + text_of(tree, {"a": "x", "b": "y"}) + "}", False)]
+        stmt = "g(a;b)"
+    elif pos == "lambda":
+        stmt = "{x}(" + e + ")"
+    elif pos == "operand":
+        stmt = "1,(" + e + ")"
+    else:
+        stmt = "(" + e + "),," + e if False else "(" + e + "),(" + e + ")"
+    prog = list(pre)
+    for a, b in history:
+        if a is not None:
+            prog.append(("a::" + a, False))
+        if b is not None:
+            prog.append(("b::" + b, False))
+        prog.append((stmt, True))
+    return prog
+
+
+def rand_history(rng, n):
+    h = []
+    for i in range(n):
+        if i == 0:
+            h.append((rand_val(rng), rand_val(rng)))
+        else:
+            r = rng.random()
+            nb = 0.5 if rng.random() < 0.5 else 0.9
+            h.append((rand_val(rng, nb) if r < 0.8 else None, rand_val(rng, nb) if r > 0.4 else None))
+    return h
+
+
+def diff_cases(rng, tier, scale=1):
+    """[(tree, pos, history)]"""
+    cases = []
+    d1 = all_depth1()
+    reps = (3 if tier == "quick" else 12) * scale
+    for t in d1:
+        for pos in POSITIONS:
+            for _ in range(reps if pos in ("top", "body", "params") else max(1, reps // 3)):
+                cases.append((t, pos, rand_history(rng, rng.choice([1, 2, 3, 3]))))
+    n = (2500 if tier == "quick" else 40000) * scale
+    for _ in range(n):
+        t = rand_tree_var(rng, rng.choice([2, 2, 3]))
+        cases.append((t, rng.choice(POSITIONS), rand_history(rng, rng.choice([1, 2, 3]))))
+    return cases
+
+
+def corr_cases(rng, tier):
+    out = []
+    d1 = all_depth1()
+    reps = 6 if tier == "quick" else 40
+    def envs():
+        a0, b0 = rand_val(rng, 0.75), rand_val(rng, 0.75)
+        if rng.random() < 0.5:
+            a1, b1 = a0, b0
+        else:
+            a1, b1 = rand_val(rng, 0.8), rand_val(rng, 0.8)
+        return ["a::" + a0, "b::" + b0], ["a::" + a1, "b::" + b1]
+    for t in d1:
+        for _ in range(reps):
+            e0, e1 = envs()
+            out.append({"text": text_of(t), "env0": e0, "env1": e1, "names": ["a", "b"]})
+    n = 1500 if tier == "quick" else 20000
+    for _ in range(n):
+        t = rand_tree_var(rng, rng.choice([2, 3]))
+        e0, e1 = envs()
+        out.append({"text": text_of(t), "env0": e0, "env1": e1, "names": ["a", "b"]})
+    # a variable that is not defined at compile time, and three variables
+    out.append({"text": "a+c", "env0": ["a::1"], "env1": ["a::1"], "names": ["a", "c"]})
+    out.append({"text": "(c*a)+(b*c)", "env0": ["a::1", "b::[1 2]", "c::2.5"], "env1": ["a::[1 2]", "b::3", "c::2"], "names": ["a", "b", "c"]})
+    out.append({"text": "((c-b)-a)%(a+(b+c))", "env0": ["a::1", "b::[1 2]", "c::2.5"], "env1": ["a::1", "b::[1 2]", "c::2.5"], "names": ["a", "b", "c"]})
+    return out
+
+
+# ---------------------------------------------------------------- comparison
+def _res_model(m):
+    """model (ok v flag) | (err) | (unm) | (nocomp) -> ('ok', sx(v), flag) | ('err',) | ('unm',) | ('nocomp',)"""
+    if m[0] == "ok":
+        return ("ok", sx(m[1]), m[2])
+    return (m[0],)
+
+
+def _res_impl(r):
+    if r is None:
+        return ("nocomp",)
+    if r[0] == "ok":
+        return ("ok", sx(r[1]), r[2] if len(r) > 2 else None)
+    return ("err",)
+
+
+def same_res(m, i, flag=False):
+    if m[0] == "unm":
+        return None
+    if m[0] != i[0]:
+        return False
+    if m[0] == "ok":
+        return m[1] == i[1] and (not flag or i[2] is None or m[2] == i[2])
+    return True
+
+
+def check_corr(chk, rng, tier):
+    cases = corr_cases(rng, tier)
+    recs = []
+    n = max(1, min(4, len(cases) // 400))
+    # split over a few worker processes
+    import concurrent.futures as cf
+    chunks = [cases[i::n] for i in range(n)]
+    with cf.ThreadPoolExecutor(n) as ex:
+        parts = list(ex.map(lambda c: call_worker("corr", {"cases": c, "torch": True}), chunks))
+    recs = [None] * len(cases)
+    for j, part in enumerate(parts):
+        for i2, r in enumerate(part):
+            recs[j + i2 * n] = r
+    reqs = [sx(["case", r["expr"], r["env0"], r["env1"]]) for r in recs]
+    outs = chk.run_model(reqs)
+    bad_corr = None
+    bad_prop = None
+    seen = set()
+    for case, rec, out in zip(cases, recs, outs):
+        chk.count("evaluations")
+        chk.count("corr_cases")
+        if out[0] == "bad":
+            if bad_corr is None:
+                bad_corr = {"kind": "model-decode", "case": case, "model": repr(out)[:300]}
+            continue
+        m = {x[0]: x[1] for x in out}
+        what = None
+        # (i) plain data: IR tree, parameters, symbols, source text
+        if sx(m["np"]) != sx(rec["np"]):
+            what = "ast_to_ir/collect_params/ir_to_source (numpy)"
+        elif rec["np"][0] == "some" and [sx(x) for x in rec["collect"]] != [sx(x) for x in m["np"][2][1:]]:
+            what = "_collect_params"
+        elif "torch_src" in rec:
+            mt = m["torch"]
+            msrc = None if mt[0] == "none" else sx(mt[4][1:])
+            isrc = None if rec["torch_src"] is None else sx(rec["torch_src"])
+            if msrc != isrc:
+                what = "ir_to_source (torch)"
+        if what is None:
+            chk.count("corr_compile_agree")
+            if "torch_src" in rec:
+                chk.count("corr_torch_source_compared")
+            if rec["np"][0] == "some":
+                chk.count("corr_compiled")
+                r = same_res(_res_model(m["run"]), _res_impl(rec.get("run")), flag=True)
+                if r is None:
+                    chk.count("corr_run_unmodelled")
+                elif not r:
+                    what = "run of the emitted text (eval_ir)"
+                else:
+                    chk.count("corr_run_agree")
+            if what is None:
+                r = same_res(_res_model(m["interp"]), _res_impl(rec["interp"]))
+                if r is None:
+                    chk.count("corr_interp_unmodelled")
+                elif not r:
+                    what = "tree-walking interpreter (interp)"
+                else:
+                    chk.count("corr_interp_agree")
+            if what is None:
+                r = same_res(_res_model(m["site"]), _res_impl(rec["site"]))
+                if r is None:
+                    chk.count("corr_site_unmodelled")
+                elif not r:
+                    what = "evaluation site (compiled with fallback)"
+                else:
+                    chk.count("corr_site_agree")
+                    if m["d5"] == 1 and rec["np"][0] == "some":
+                        chk.count("corr_site_in_D5")
+                        key = (case["text"], sx(rec["env1"]))
+                        if key not in seen:
+                            seen.add(key)
+                            chk.count("distinct_nontrivial")
+        if what is not None and bad_corr is None:
+            bad_corr = {"kind": what, "case": case, "model": {k: sx(v)[:400] for k, v in m.items()},
+                        "impl": {k: (sx(v)[:400] if v is not None else None) for k, v in rec.items() if k in ("np", "run", "interp", "site", "torch_src")}}
+        # the property on the implementation, same data: the site equals the stubbed interpreter
+        si, ii = _res_impl(rec["site"]), _res_impl(rec["interp"])
+        if not (si[0] == ii[0] and (si[0] != "ok" or si[1] == ii[1])):
+            chk.count("corr_site_differs_from_interp")
+            if bad_prop is None:
+                bad_prop = case
+        chk.sample({"expr": case["text"], "env0": case["env0"], "env1": case["env1"],
+                    "compiled": rec["np"][0], "site": sx(rec["site"])[:80]}, limit=5)
+    return bad_corr, bad_prop
+
+
+# ---------------------------------------------------------------- (ii) the differential and attribution of differences
+FINDINGS = {
+    "C05-power-kind": {"prog": ["a::4", "a^0.5"], "tree": ("dy", "^", ("sym", "a"), ("lit", "0.5"))},
+    "C05-divide-numpy-zero": {"prog": ["a::[1 2 3]", "(+/a)%0"], "tree": ("dy", "%", ("adv", "+", "/", ("sym", "a")), ("lit", "0"))},
+}
+
+
+def _intify(o):
+    """integral reals -> integers (finding K4 changes nothing else)"""
+    if isinstance(o, list):
+        if len(o) == 2 and o[0] == "r" and isinstance(o[1], int):
+            x = struct.unpack(">d", struct.pack(">Q", o[1]))[0]
+            if x == x and not math.isinf(x) and x == math.floor(x):
+                return ["i", int(x)]
+            return o
+        return [_intify(x) for x in o]
+    return o
+
+
+def _is_infnan(s):
+    try:
+        o = parse_sx(s)
+    except Exception:
+        return False
+    if isinstance(o, list) and len(o) == 2 and o[0] == "r":
+        x = struct.unpack(">d", struct.pack(">Q", o[1]))[0]
+        return x != x or math.isinf(x)
+    return False
+
+
+def classify_pair(op, normal, stub):
+    """a differing pair of results of a subexpression rooted at op, evaluated alone -> finding id or None"""
+    if op == "^" and normal != "EXC" and stub != "EXC":
+        try:
+            if sx(_intify(parse_sx(normal))) == sx(_intify(parse_sx(stub))):
+                return "C05-power-kind"
+        except Exception:
+            return None
+    if op == "%" and stub == "(u 1)" and _is_infnan(normal):
+        return "C05-divide-numpy-zero"
+    return None
+
+
+def run_diff(progs, backend, nproc=4):
+    import concurrent.futures as cf
+    n = max(1, min(nproc, len(progs) // 300))
+    res = {}
+    def one(args):
+        stub, j = args
+        return call_worker("diff", {"stub": stub, "backend": backend, "programs": progs[j::n]})
+    jobs = [(stub, j) for stub in (False, True) for j in range(n)]
+    with cf.ThreadPoolExecutor(2 * n) as ex:
+        parts = list(ex.map(one, jobs))
+    out = {False: [None] * len(progs), True: [None] * len(progs)}
+    for (stub, j), part in zip(jobs, parts):
+        for i2, r in enumerate(part):
+            out[stub][j + i2 * n] = r
+    return out[False], out[True]
+
+
+def attribute(tree, binds, backend):
+    """evaluate every subexpression alone (fresh interpreter, final bindings) in both modes; the difference is a
+    known finding iff every innermost differing subexpression is one"""
+    subs = []
+    for t in subtrees(tree):
+        if t[0] in ("sym", "lit"):
+            continue
+        subs.append(t)
+    progs = [[(b, False) for b in binds] + [(text_of(t), True)] for t in subs]
+    normal, stub = run_diff(progs, backend, nproc=1)
+    differing = [t for t, a, b in zip(subs, normal, stub) if a != b]
+    if not differing:
+        return None, "no subexpression differs on its own (history / position dependent)"
+    ids = set()
+    for t, a, b in zip(subs, normal, stub):
+        if a == b:
+            continue
+        inner = [u for u in subtrees(t) if u is not t and u in differing]
+        if inner:
+            continue
+        fid = classify_pair(t[1] if t[0] == "dy" else None, a[0], b[0])
+        if fid is None:
+            return None, "subexpression %s: compiled %s, interpreter %s" % (text_of(t), a[0], b[0])
+        ids.add(fid)
+    return ids, None
+
+
+def check_diff(chk, rng, tier, backend, scale=1):
+    cases = diff_cases(rng, tier, scale)
+    if backend == "torch":
+        cases = cases[:: (3 if tier == "thorough" else 6)]
+    progs = [program(t, pos, h) for t, pos, h in cases]
+    normal, stub = run_diff(progs, backend)
+    bad = None
+    seen = set()
+    for (t, pos, h), prog, a, b in zip(cases, progs, normal, stub):
+        chk.count("evaluations", len(a))
+        chk.count("diff_programs_" + backend)
+        chk.count("diff_pos_" + pos)
+        if any(x != "EXC" for x in a):
+            key = (text_of(t), pos)
+            if key not in seen:
+                seen.add(key)
+                chk.count("distinct_nontrivial")
+        if a == b:
+            continue
+        chk.count("diff_differing_" + backend)
+        # final bindings at the first differing step
+        step = [i for i, (x, y) in enumerate(zip(a, b)) if x != y][0]
+        binds, k = [], -1
+        for stmt, cap in prog:
+            if cap:
+                k += 1
+                if k == step:
+                    break
+            elif stmt.startswith("a::") or stmt.startswith("b::"):
+                binds.append(stmt)
+        ids, why = attribute(t, binds, backend)
+        if ids:
+            for fid in sorted(ids):
+                chk.count("diff_known_" + fid)
+                chk.finding(fid, "known finding reproduced", {"program": [s for s, _ in prog]})
+            continue
+        if bad is None:
+            bad = {"kind": "compiled != interpreted", "backend": backend, "position": pos, "expression": text_of(t),
+                   "program": [s for s, _ in prog], "with_compiler": a, "compile_expr_stubbed": b, "why_not_known": why}
+    chk.sample({"backend": backend, "programs": len(progs)}, limit=8)
+    return bad
+
+
+def replay_findings(chk):
+    """step 2: the witnesses of the known findings still fail as the model predicts"""
+    gone = []
+    for fid, w in FINDINGS.items():
+        prog = [[(s, i == len(w["prog"]) - 1) for i, s in enumerate(w["prog"])]]
+        normal, stub = run_diff(prog, "numpy", nproc=1)
+        a, b = normal[0][0], stub[0][0]
+        chk.count("evaluations", 2)
+        if a != b and classify_pair(w["tree"][1], a, b) == fid:
+            chk.finding(fid, "witness %r: compiled %s, interpreter %s" % (w["prog"], a, b), {"program": w["prog"]})
+        else:
+            gone.append({"finding": fid, "program": w["prog"], "with_compiler": a, "compile_expr_stubbed": b})
+    return gone
+
+
+def run(tier, replay=None):
+    chk = Check("C05", tier)
+    rng = random.Random(chk.seed)
+    chk.generate(generate())
+    chk.build_model()
+    hits = forbidden_scan("C05")
+    proof = chk.build_proofs()
+    if hits:
+        proof["ok"] = False
+        proof["error"] = "forbidden declarations: %r" % hits
+        proof["broken"] = hits[0]
+    gone = replay_findings(chk)
+    bad_corr, bad_prop_i = check_corr(chk, rng, tier)
+    bad = check_diff(chk, rng, tier, "numpy")
+    bad_t = check_diff(chk, rng, tier, "torch") if tier == "thorough" else None
+    for bp in (bad, bad_t):
+        if bp is not None:
+            chk.violation("the value of an expression depends on whether the expression compiler handled it (%s backend, %s position): %s"
+                          % (bp["backend"], bp["position"], bp["expression"]), bp)
+    if not chk.violations and (bad_corr is not None or gone or not proof["ok"]):
+        # something no longer checks: search wider for a failing input of the property itself
+        wide = check_diff(chk, random.Random(chk.seed + 1), tier, "numpy", scale=3)
+        if wide is not None:
+            chk.violation("the value of an expression depends on whether the expression compiler handled it (%s position): %s"
+                          % (wide["position"], wide["expression"]), wide)
+        else:
+            n = chk.counters.get("evaluations", 0)
+            if bad_corr is not None:
+                chk.violation("correspondence between klongpy and the Coq model broke (%s); no failing input of the property found in %d evaluations"
+                              % (bad_corr["kind"], n), {"broken": "correspondence C05/Model.v", "detail": bad_corr}, no_input=True)
+            elif gone:
+                chk.violation("a known finding no longer reproduces as the model predicts (%s); no other failing input found in %d evaluations"
+                              % (gone[0]["finding"], n), {"broken": "known-finding witness", "detail": gone}, no_input=True)
+            else:
+                chk.violation("proof obligation no longer checks: %s" % proof["broken"],
+                              {"broken_obligation": proof["broken"], "coq_error": proof["error"], "generated": chk.generated_text}, no_input=True)
+    return chk.finish(
+        rule="(i) every compilable-grammar expression of depth <= 1 x seeded (compile-time, run-time) binding pairs + seeded depth 2-3 expressions: real "
+             "_ast_to_ir/_collect_params/_ir_to_source(np, torch)/compiled fn/stubbed interpreter vs extracted model; (ii) expressions x 6 evaluation "
+             "positions x rebinding histories of length <= 3 over {int, real, rank-1 int/real, empty, rank-2, nested, NumPy scalar, text, odd}: "
+             "interpreter vs interpreter with compile_expr stubbed. distinct = distinct (expression, run-time bindings) in D5 / (expression, position)",
+        trusted_base=TRUSTED, assumptions=ASSUME)
+
+
+if __name__ == "__main__":
+    _worker_main()
